@@ -26,7 +26,9 @@ RULE = ("part 'history': random histories over log / add_destinations(1-3 new de
         "scheduler with LINE events on eliot/_output.py: for every priority order ALL one-preemption schedules plus sampled "
         "2-3-preemption ones. Oracle: every message whose logging call returned is on the destination's tape exactly once, per-thread "
         "order preserved, messages buffered before the threads started come first; in a quarter of the thread sets TWO threads make the first add_destinations "
-        "call concurrently (exactly one receives the buffered messages, both are registered afterwards, neither call raises). part 'registry': after the hand-over, 2-3 threads "
+        "call concurrently (exactly one receives the buffered messages, both are registered afterwards, neither call raises); in another quarter the destination needs "
+        "arbitrarily long for one of 2-3 buffered messages (logical time: it continues only when no thread can run and every timed wait of a higher-priority thread has expired), "
+        "so a logging call that gives up waiting for the hand-over shows as a message delivered ahead of buffered ones. part 'registry' (switch points also between a call instruction and the use of its result inside one line): after the hand-over, 2-3 threads "
         "add and remove destinations (and one logs) concurrently under the same scheduler, all one-preemption schedules: every "
         "destination whose add returned receives a message logged afterwards, every removed one does not, the destination registered "
         "throughout receives everything once. non-trivial = history with >=2 adds and a "
@@ -290,8 +292,10 @@ def part_history(spec, res):
 # --------------------------------------------------------------------------- concurrent hand-over
 
 
-def handover_once(plan_, nlog, nmsg, nprebuf, in_action, nadders=1):
-    """Executed in a fresh process: returns stats + what was logged + the destination's tape."""
+def handover_once(plan_, nlog, nmsg, nprebuf, in_action, nadders=1, slow=None):
+    """Executed in a fresh process: returns stats + what was logged + the destination's tape. slow=k: the destination needs
+    arbitrarily long for the k-th buffered message (in logical time: it goes on only when nothing else can, and after every wait
+    with a timeout of a higher-priority thread has expired)."""
     sched.instrument([_output])
     tape = []
     returned = {t: [] for t in range(nlog)}
@@ -300,6 +304,8 @@ def handover_once(plan_, nlog, nmsg, nprebuf, in_action, nadders=1):
 
     def dest(m):
         tape.append((m.get("t"), m.get("seq"), m.get("pre")))
+        if slow is not None and m.get("pre") == slow:
+            sched.sleep()
 
     def logger(t):
         def run():
@@ -355,7 +361,8 @@ def handover_once(plan_, nlog, nmsg, nprebuf, in_action, nadders=1):
         for x_ in extra[:2]:
             errs["second-adder: " + x_] = None
     return {"stats": {"events": st["events"], "fired": st["fired"], "aborted": st["aborted"], "deadlock": st["deadlock"], "trace": st["trace"], "steps": st["steps"]},
-            "errors": {k: repr(v) for k, v in errs.items()}, "returned": {str(k): v for k, v in returned.items()}, "tape": tape}
+            "errors": {k: repr(v) for k, v in errs.items()}, "returned": {str(k): v for k, v in returned.items()}, "tape": tape,
+            "timeouts_fired": st["timeouts_fired"]}
 
 
 def judge_handover(data, nlog, nprebuf, problems):
@@ -388,13 +395,19 @@ def part_handover(spec, res):
     nadders = 2 if spec["i"] % 4 == 3 else 1
     if nadders == 2:
         nlog, nmsg = 1, rng.choice([1, 2])
+    slow = None
+    if spec["i"] % 4 == 1:
+        # the replay of the start-up buffer takes arbitrarily long (a slow file system, a network destination): a logging call made
+        # meanwhile still has to come out behind the buffered messages, however long it has to wait
+        nprebuf = rng.choice([2, 3])
+        slow = rng.randrange(nprebuf)
     names = ["L%d" % t for t in range(nlog)] + ["A"] + (["B"] if nadders == 2 else [])
     c = res["counters"]
 
     def execute(plan_, label):
         if nadders == 2:
             c["schedules_with_two_first_adders"] = c.get("schedules_with_two_first_adders", 0) + 1
-        kind, data = call_in_fork(lambda: handover_once(plan_, nlog, nmsg, nprebuf, in_action, nadders), timeout=120)
+        kind, data = call_in_fork(lambda: handover_once(plan_, nlog, nmsg, nprebuf, in_action, nadders, slow), timeout=120)
         res["evals"] += 1
         c["schedules_run"] = c.get("schedules_run", 0) + 1
         if kind == "timeout" or kind == "died":
@@ -413,6 +426,9 @@ def part_handover(spec, res):
                 return st
             else:
                 judge_handover(data, nlog, nprebuf, problems)
+            if slow is not None and not st["aborted"]:
+                c["schedules_with_arbitrarily_slow_replay"] = c.get("schedules_with_arbitrarily_slow_replay", 0) + 1
+                c["logical_timeouts_expired"] = c.get("logical_timeouts_expired", 0) + data.get("timeouts_fired", 0)
             res["sets"]["interleavings"].append(h(st["trace"]))
             for nm, k, loc in st["fired"]:
                 res["sets"]["preemption_lines"].append(loc)
@@ -423,7 +439,7 @@ def part_handover(spec, res):
             mech = "handover-race" if any("hand-over race" in p for p in problems) and not any("twice" in p or "out of order" in p or "raised" in p for p in problems) else None
             res["violations"].append({"msg": problems[0], "mech": mech,
                                       "detail": {"part": "handover", "plan": plan_, "threads": names, "messages_per_logger": nmsg, "prebuffered": nprebuf,
-                                                 "in_action": in_action, "problems": problems[:5], "trace": st and st["trace"][:40], "label": label}})
+                                                 "in_action": in_action, "slow_buffered_message": slow, "problems": problems[:5], "trace": st and st["trace"][:40], "label": label}})
         elif problems:
             res["counters"]["further_violating_schedules"] = res["counters"].get("further_violating_schedules", 0) + 1
         return st
@@ -444,7 +460,7 @@ def part_handover(spec, res):
 
 def registry_once(plan_, ops):
     """Fresh process: threads add / remove destinations (and one logs) concurrently after the hand-over is long over."""
-    sched.instrument([_output])
+    sched.instrument([_output], post_call=True)  # switch points also between a call and the use of its result, inside a line
     tapes = {}
 
     def make(name):
@@ -920,7 +936,11 @@ def finalize(agg, tier):
         return "no add_destinations call completed while the only registered destination was handling a message"
     if c.get("messages_waiting_for_the_handover_when_a_global_field_was_set", 0) < 1:
         return "no log call was waiting for the hand-over when a global field was set during the replay of the start-up buffer"
+    if c.get("schedules_with_arbitrarily_slow_replay", 0) < 50 or c.get("logical_timeouts_expired", 0) < 50:
+        return "fewer than 50 hand-over schedules in which the destination stalled on a buffered message"
     lines = agg["sets"].get("preemption_lines", {})
     if not any(l.startswith("_output.py") for l in lines):
         return "no preemption landed inside eliot/_output.py"
+    if not any(l.startswith("_output.py:+") for l in lines):
+        return "no preemption landed between a call and the use of its result inside eliot/_output.py (registry part)"
     return None
